@@ -34,7 +34,8 @@ TRUSTED_COMMON = [
 
 class Task:
     def __init__(self, prop, name, fn, kind, tier, params, budget_s, functions, scope, canary, max_paths, note,
-                 shard=None, vc_timeout_s=30, exact_feas_ms=100, leak_ok=False):
+                 shard=None, vc_timeout_s=30, exact_feas_ms=100, leak_ok=False, crosscheck=True):
+        self.crosscheck = crosscheck
         self.leak_ok = leak_ok      # a ProxyLeak makes this task inapplicable (a bounded sibling covers it) instead of a checker error
         self.shard = shard
         self.vc_timeout_s = vc_timeout_s
@@ -52,7 +53,7 @@ REGISTRY: dict[str, list[Task]] = {}
 
 def contract(prop, name=None, kind="sym", tier="quick", params=None, budget_s=300, functions=None,
              scope="unbounded", canary=False, max_paths=None, note="", shards=1, shard_depth=6,
-             vc_timeout_s=30, exact_feas_ms=100, leak_ok=False):
+             vc_timeout_s=30, exact_feas_ms=100, leak_ok=False, crosscheck=True):
     """Register a contract program (kind='sym'), a bounded enumeration (kind='enum') or a static analysis
     (kind='static').  `params` may be a list of dicts: one task per dict."""
     def deco(fn):
@@ -65,7 +66,7 @@ def contract(prop, name=None, kind="sym", tier="quick", params=None, budget_s=30
                 REGISTRY.setdefault(prop, []).append(
                     Task(prop, nm + (f"#{j}/{shards}" if shards > 1 else ""), fn, kind, tier, p, budget_s, functions,
                          scope, canary, max_paths, note, shard=(j, shards, shard_depth) if shards > 1 else None,
-                         vc_timeout_s=vc_timeout_s, exact_feas_ms=exact_feas_ms, leak_ok=leak_ok))
+                         vc_timeout_s=vc_timeout_s, exact_feas_ms=exact_feas_ms, leak_ok=leak_ok, crosscheck=crosscheck))
         return fn
     return deco
 
@@ -102,7 +103,8 @@ def _run_task(idx_prop):
         if task.kind == "sym":
             from . import symx
             ex = symx.Explorer(task.program(), name=task.name, budget_s=task.budget_s, max_paths=task.max_paths,
-                               shard=task.shard, vc_timeout_ms=task.vc_timeout_s * 1000, exact_feas_ms=task.exact_feas_ms)
+                               shard=task.shard, vc_timeout_ms=task.vc_timeout_s * 1000, exact_feas_ms=task.exact_feas_ms,
+                               crosscheck_paths=0 if (task.canary or not task.crosscheck) else 2)
             rep = ex.run().to_dict()
             rep["kind"] = "sym"
         else:
@@ -199,7 +201,7 @@ def run_property(prop, tier="quick", seed=0, level="proof", only=None, jobs=None
             errors.append(dict(task=t.name, errors=r.get("errors")))
         if t.kind == "sym":
             paths += r.get("paths", 0)
-            row.update(paths=r.get("paths"), completed=r.get("paths_completed"), assumes_per_path=(r.get("notes") or {}).get("assumes_max_per_path"),
+            row.update(paths=r.get("paths"), completed=r.get("paths_completed"), assumes_per_path=(r.get("notes") or {}).get("assumes_max_per_path"), crosscheck=(r.get("notes") or {}).get("crosscheck"),
                        covers=(r.get("notes") or {}).get("covers"))
             if r.get("budget_hit"):
                 undecided.append(dict(task=t.name, reason="exploration budget exhausted"))
